@@ -20,6 +20,8 @@ PROPS["C06"] = {
         "RCE.Props.C06.ray_source_eq",
         "RCE.Props.C06.rook_mask_source_eq",
         "RCE.Props.C06.bishop_mask_source_eq",
+        "RCE.Props.C06.rook_slow_source_eq",
+        "RCE.Props.C06.bishop_slow_source_eq",
         "RCE.Props.C06.rook_attacks_exact",
         "RCE.Props.C06.bishop_attacks_exact",
         "RCE.Props.C06.queen_attacks_exact",
